@@ -12,7 +12,7 @@ for pid in props:
     m = meta.get(pid, {})
     us = [u for u in units if pid in u["props"]]
     if m.get("claim") and us:
-        allu = all(u["label"] in ("proved-unbounded", "proved-lemma") for u in us if "quick" in u["tiers"])
+        allu = all(u["label"] in driver.PROOF_LABELS for u in us if "quick" in u["tiers"])
         cat = "proof" if allu else "other"
         checks.append({
             "property_id": pid,
